@@ -227,9 +227,113 @@ Proof.
   destruct H2 as [Hw' _]. rewrite (IH s' Hw'). reflexivity.
 Qed.
 
-(* the tokenizer assembled from the scanners translated from options.py is the hand model *)
+(* ------------------------------------------------------------------ the translated _tokenize loop *)
+
+Definition projw (m : wres unit) : list token * option exn :=
+  (fst m, match snd m with Ok _ => None | Raise e => Some e end).
+
+Lemma bindw_assoc {A B D} (m : wres A) (k1 : A -> wres B) (k2 : B -> wres D) :
+  bindw (bindw m k1) k2 = bindw m (fun a => bindw (k1 a) k2).
+Proof.
+  destruct m as [ts [a|e]]; cbn [bindw]; [|reflexivity].
+  destruct (k1 a) as [ts1 [b|e1]]; cbn [bindw]; [|reflexivity].
+  destruct (k2 b) as [ts2 r]. rewrite app_assoc. reflexivity.
+Qed.
+
+Lemma bindw_ret {A B} (a : A) (k : A -> wres B) : bindw (liftw (Ok a)) k = k a.
+Proof. unfold bindw, liftw. destruct (k a) as [ts r]. reflexivity. Qed.
+
+(* how tokenize_f goes on after one round *)
+Definition contw (f : nat) (m : wres (option stream)) : list token * option exn :=
+  match m with
+  | (ts, Raise e) => (ts, Some e)
+  | (ts, Ok None) => (ts, None)
+  | (ts, Ok (Some s')) => let '(ts', e) := tokenize_f_with src_scanners f s' in (ts ++ ts', e)
+  end.
+
+Lemma wstep {A} f (m : wres A) (k : A -> wres unit) (k' : A -> wres (option stream)) :
+  (forall a, snd m = Ok a -> projw (k a) = contw f (k' a)) -> projw (bindw m k) = contw f (bindw m k').
+Proof.
+  destruct m as [ts [a|e]]; cbn [snd bindw]; intros H; [|reflexivity].
+  specialize (H a eq_refl). unfold projw in *.
+  destruct (k a) as [ts1 r1], (k' a) as [ts2 r2]. cbn [fst snd contw] in *.
+  destruct r2 as [[s2|]|e2]; cbn [contw].
+  - destruct (tokenize_f_with src_scanners f s2) as [ts3 e3]. destruct r1; inversion H; subst; rewrite app_assoc; reflexivity.
+  - destruct r1; inversion H; subst; reflexivity.
+  - destruct r1; inversion H; subst; reflexivity.
+Qed.
+
+(* the generated loop is tok_iter (over the translated scanners) iterated *)
+Lemma tokenize_src_w1_eq : forall f s, projw (tokenize_src_w1 f s) = tokenize_f_with src_scanners f s.
+Proof.
+  induction f as [|f IH]; intros s; [reflexivity|].
+  change (tokenize_f_with src_scanners (S f) s) with (contw f (tok_iter_with src_scanners s)).
+  assert (Hfin : forall s6, projw (tokenize_src_w1 f s6) = contw f (liftw (Ok (Some s6)))).
+  { intros s6. rewrite IH. cbn [contw liftw]. destruct (tokenize_f_with src_scanners f s6). reflexivity. }
+  cbn [tokenize_src_w1]. unfold tok_iter_with. cbn [sc_next sc_plain sc_flow sc_block src_scanners]. unfold_tabs.
+  apply wstep. intros s1 _.
+  apply wstep. intros c Hpk. cbn [liftw snd] in Hpk.
+  destruct (str_eqb [c] [0]); [reflexivity|].
+  destruct (negb (s_col s1 =? 0)); [reflexivity|].
+  rewrite Hpk, bindw_ret. cbv zeta.
+  (* the key *)
+  assert (Hkey : forall (X : res (stream * str)) (K : stream -> wres unit) (K' : stream -> wres (option stream)),
+    (forall s2, projw (K s2) = contw f (K' s2)) ->
+    projw (dow stream <- (dow r <- liftw X; let '(s6, v) := r in dow _ <- yield (TKey v); liftw (Ok s6)); K stream) =
+    contw f (dow kr <- liftw X; let '(s2, k) := kr in dow _ <- yield (TKey k); K' s2)).
+  { intros X K K' H. rewrite bindw_assoc. apply wstep. intros [s2 k] _. rewrite bindw_assoc.
+    apply wstep. intros [] _. rewrite bindw_ret. apply H. }
+  assert (Hrest : forall s2, projw
+     (dow __r10 <- liftw (scan_to_next_token_src s2);
+      dow __c11 <- liftw (peek __r10 0);
+      if negb (__c11 =? 58) then liftw (Raise (TokenizeError (s_idx __r10)))
+      else dow stream <- liftw (forward __r10 1);
+           dow _ <- yield TColon;
+           dow __r12 <- liftw (scan_to_next_token_src stream);
+           dow __c13 <- liftw (peek __r12 0);
+           dow stream0 <-
+             (if s_col __r12 =? 0 then liftw (Ok __r12)
+              else if mem_N __c13 [124; 62]
+                   then dow __r14 <- liftw (scan_block_scalar_src __r12 __c13);
+                        let '(__s16, __v15) := __r14 in dow _ <- yield (TValue (s_idx __r12) __v15); liftw (Ok __s16)
+                   else if mem_N __c13 [39; 34]
+                        then dow __r17 <- liftw (scan_flow_scalar_src __r12 __c13 false);
+                             let '(__s19, __v18) := __r17 in dow _ <- yield (TValue (s_idx __r12) __v18); liftw (Ok __s19)
+                        else dow __r20 <- liftw (scan_plain_scalar_src __r12 false);
+                             let '(__s22, __v21) := __r20 in dow _ <- yield (TValue (s_idx __r12) __v21); liftw (Ok __s22));
+           tokenize_src_w1 f stream0) =
+     contw f
+     (dow s3 <- liftw (scan_to_next_token_src s2);
+      dow ch3 <- liftw (peek s3 0);
+      if negb (ch3 =? 58) then liftw (Raise (TokenizeError (s_idx s3)))
+      else dow s4 <- liftw (forward s3 1);
+           dow _ <- yield TColon;
+           dow s5 <- liftw (scan_to_next_token_src s4);
+           dow ch5 <- liftw (peek s5 0);
+           if s_col s5 =? 0 then liftw (Ok (Some s5))
+           else dow vr <- liftw (if mem_N ch5 [124; 62] then scan_block_scalar_src s5 ch5
+                                 else if mem_N ch5 [39; 34] then scan_flow_scalar_src s5 ch5 false
+                                 else scan_plain_scalar_src s5 false);
+                let '(s6, v) := vr in dow _ <- yield (TValue (s_idx s5) v); liftw (Ok (Some s6)))).
+  { intros s2.
+    apply wstep. intros s3 _. apply wstep. intros c3 _.
+    destruct (negb (c3 =? 58)); [reflexivity|].
+    apply wstep. intros s4 _. apply wstep. intros [] _. apply wstep. intros s5 _. apply wstep. intros c5 _.
+    destruct (s_col s5 =? 0); [rewrite bindw_ret; apply Hfin|].
+    assert (Hval : forall (X : res (stream * str)),
+      projw (dow stream0 <- (dow r <- liftw X; let '(s6, v) := r in dow _ <- yield (TValue (s_idx s5) v); liftw (Ok s6));
+             tokenize_src_w1 f stream0) =
+      contw f (dow vr <- liftw X; let '(s6, v) := vr in dow _ <- yield (TValue (s_idx s5) v); liftw (Ok (Some s6)))).
+    { intros X. rewrite bindw_assoc. apply wstep. intros [s6 v] _. rewrite bindw_assoc.
+      apply wstep. intros [] _. rewrite bindw_ret. apply Hfin. }
+    destruct (mem_N c5 [124; 62]); [apply Hval|]. destruct (mem_N c5 [39; 34]); apply Hval. }
+  destruct (mem_N c [39; 34]); apply Hkey; intros s2; apply Hrest.
+Qed.
+
+(* the tokenizer assembled from the functions translated from options.py is the hand model *)
 Theorem options_to_items_src_eq text : options_to_items_src text = options_to_items text.
 Proof.
-  unfold options_to_items_src, options_to_items_with, tokenize_with, options_to_items, tokenize. cbv zeta.
-  rewrite (tokenize_f_src_eq _ _ _ (new_stream_wfs text)). reflexivity.
+  unfold options_to_items_src, tokenize_src, options_to_items, tokenize. cbv zeta.
+  rewrite <- (tokenize_f_src_eq _ _ _ (new_stream_wfs text)), <- tokenize_src_w1_eq. unfold projw.
+  destruct (tokenize_src_w1 (fuel_of (new_stream text)) (new_stream text)) as [ts r]. reflexivity.
 Qed.
